@@ -1903,8 +1903,7 @@ class ContractionTree:
         node_cost = getattr(scorer, "cost_local_tree_node", lambda _: 2)
 
         # different caches as we might want to reconfigure one before other
-        tree.already_optimized.setdefault(minimize, set())
-        already_optimized = tree.already_optimized[minimize]
+        already_optimized = tree.already_optimized.setdefault(scorer, set())
 
         if select == "random":
             rng = get_rng(seed)
